@@ -47,7 +47,9 @@ pub struct World {
     pub holders: Vec<LinkSecret>,
     pub creds: Vec<Held>,
     pub tails_path: String,
-    pub states: HashMap<(usize, usize), CredentialRevocationState>, // (cred index, list index)
+    pub states: HashMap<(usize, usize), CredentialRevocationState>, // (cred index, list index), derived from scratch
+    /// the same states derived incrementally from the state for the previous list
+    pub states_inc: HashMap<(usize, usize), CredentialRevocationState>,
 }
 
 pub const SCHEMA_IDS: [&str; 3] = ["NcYxiDXkpYi6ov5FcYDi1e:2:gvt:1.0", "did:web:emp.example/schema/1", "NcYxiDXkpYi6ov5FcYDi1e:2:gvt2:2.0"];
@@ -140,7 +142,23 @@ impl World {
                 }
             }
         }
-        World { cds, revocable, reg, lists, holders, creds, tails_path, states }
+        let mut states_inc = HashMap::new();
+        for (ci, c) in creds.iter().enumerate() {
+            if let Some(idx) = c.rev_idx {
+                for li in 1..lists.len() {
+                    let prev: Option<&CredentialRevocationState> = states_inc.get(&(ci, li - 1)).or_else(|| states.get(&(ci, li - 1)));
+                    if let Some(prev) = prev {
+                        let r = std::panic::catch_unwind(std::panic::AssertUnwindSafe(|| {
+                            prover::create_or_update_revocation_state(&tails_path, &reg.def, &lists[li].list, idx, Some(prev), Some(&lists[li - 1].list))
+                        }));
+                        if let Ok(Ok(st)) = r {
+                            states_inc.insert((ci, li), st);
+                        }
+                    }
+                }
+            }
+        }
+        World { cds, revocable, reg, lists, holders, creds, tails_path, states, states_inc }
     }
 
     pub fn schemas(&self) -> HashMap<SchemaId, Schema> {
@@ -495,6 +513,19 @@ pub struct Pick {
     pub attrs: Vec<(String, bool)>, // referent, revealed
     pub preds: Vec<String>,
     pub list: Option<usize>, // status list the revocation state is taken for (None: no state, no timestamp)
+    pub inc: bool,           // use the incrementally derived state when there is one
+}
+
+impl World {
+    pub fn state_of(&self, p: &Pick) -> Option<&CredentialRevocationState> {
+        let li = p.list?;
+        if p.inc {
+            if let Some(s) = self.states_inc.get(&(p.cred, li)) {
+                return Some(s);
+            }
+        }
+        self.states.get(&(p.cred, li))
+    }
 }
 
 pub fn make_legacy(w: &World, req: &PresentationRequest, picks: &[Pick], self_attested: &[(String, String)], holder: usize) -> Option<(Presentation, Vec<Prov>, AggProv)> {
@@ -504,7 +535,7 @@ pub fn try_legacy(w: &World, req: &PresentationRequest, picks: &[Pick], self_att
     let mut pc: PresentCredentials<Credential> = PresentCredentials::default();
     let mut provs = vec![];
     for p in picks.iter() {
-        let st = p.list.and_then(|li| w.states.get(&(p.cred, li)));
+        let st = w.state_of(p);
         let ts = st.map(|_| w.lists[p.list.unwrap()].ts);
         let mut ac = pc.add_credential(&w.creds[p.cred].legacy, ts, st);
         for (r, rev) in &p.attrs {
@@ -551,7 +582,7 @@ pub fn try_w3c_opt(w: &World, req: &PresentationRequest, picks: &[Pick], holder:
     let mut pc: PresentCredentials<W3CCredential> = PresentCredentials::default();
     let mut provs = vec![];
     for p in picks.iter() {
-        let st = p.list.and_then(|li| w.states.get(&(p.cred, li)));
+        let st = w.state_of(p);
         let ts = st.map(|_| w.lists[p.list.unwrap()].ts);
         let mut ac = pc.add_credential(if multi { &w.creds[p.cred].w3c_multi } else { &w.creds[p.cred].w3c }, ts, st);
         for (r, rev) in &p.attrs {
